@@ -73,7 +73,7 @@ func main() {
 	}
 	dir, _ := os.MkdirTemp("", "govc")
 	defer os.RemoveAll(dir)
-	cfg := SolverCfg{Workers: 16, FirstSecs: 3, RaceSecs: 10, Dir: dir, KeepFiles: *keep}
+	cfg := SolverCfg{Workers: 16, FirstSecs: 3, RaceSecs: 20, Dir: dir, KeepFiles: *keep}
 	if *tier == "thorough" {
 		cfg.FirstSecs, cfg.RaceSecs = 5, 60
 	}
